@@ -113,30 +113,20 @@ theorem uri_scheme (f n : Str) :
 example : (fromFileInst (c!"cities.csv")).map (·.src) = some (some (c!"jr://file-csv/cities.csv")) := by decide
 example : (fromFileInst (c!"g.geojson")).map (fun i => (i.name, i.src)) = some (c!"g", some (c!"jr://file/g.geojson")) := by decide
 
-/-- **Partial** (open finding F47): when some *question* (select, external select, companion …) reads
-    `${last-saved#…}` in its default, choice_filter or a logic bind, the last-saved instance is declared with the
-    conventional URI.  Full statement wanted: the same under `anyLastSaved es || secLastSaved es` (a group's or
-    repeat's bind reading it); the code does not ask sections, see `last_saved_declared_repaired`. -/
-theorem last_saved_declared_partial (es : List Elem) (lists : List (Str × List Choice)) (f : Bool) (out : List Inst)
-    (h : emitInsts [] (allInsts es lists f) = some out) (hl : anyLastSaved es = true) :
+/-- Whenever any element reads `${last-saved#…}` — a question, select, external select or companion in its default,
+    choice_filter or a logic bind, or a group / repeat in a logic bind — the last-saved instance is declared with the
+    conventional URI.  (Full: the former finding F47 is repaired by a1c327a, its guard is gone.) -/
+theorem last_saved_declared (es : List Elem) (lists : List (Str × List Choice)) (out : List Inst)
+    (h : emitInsts [] (allInsts es lists) = some out) (hl : (anyLastSaved es || secLastSaved es) = true) :
     ∃ o ∈ out, o.name = lastSavedInst.name ∧ o.src = some c!"jr://instance/last-saved" := by
-  have hm : lastSavedInst ∈ allInsts es lists f := by simp [allInsts, hl]
+  have hm : lastSavedInst ∈ allInsts es lists := by
+    simp only [allInsts, hl, if_true]; simp
   obtain ⟨o, ho, hn, hs⟩ := external_declared_once _ out h lastSavedInst hm
   exact ⟨o, ho, hn, by rw [hs]; rfl⟩
 
-/-- The full statement for the model variant with F47 repaired (`fixes/F47-last-saved-in-section-bind.diff`). -/
-theorem last_saved_declared_repaired (es : List Elem) (lists : List (Str × List Choice)) (out : List Inst)
-    (h : emitInsts [] (allInsts es lists true) = some out) (hl : (anyLastSaved es || secLastSaved es) = true) :
-    ∃ o ∈ out, o.name = lastSavedInst.name ∧ o.src = some c!"jr://instance/last-saved" := by
-  have hm : lastSavedInst ∈ allInsts es lists true := by
-    simp only [allInsts, Bool.true_and, hl, if_true]; simp
-  obtain ⟨o, ho, hn, hs⟩ := external_declared_once _ out h lastSavedInst hm
-  exact ⟨o, ho, hn, by rw [hs]; rfl⟩
-
-/-- the witness of the gap: a group whose `relevant` reads last-saved, nothing else does -/
+/-- a group whose `relevant` reads last-saved, nothing else does -/
 example : let es := [Elem.sec c!"g" [(c!"bind::relevant", c!"${last-saved#q} = 'a'")]]
-    anyLastSaved es = false ∧ secLastSaved es = true ∧ (allInsts es [] false).isEmpty = true ∧
-    (allInsts es [] true).map (·.name) = [c!"__last-saved"] := by decide +kernel
+    anyLastSaved es = false ∧ secLastSaved es = true ∧ (allInsts es []).map (·.name) = [c!"__last-saved"] := by decide +kernel
 
 example : anyLastSaved [Elem.sel c!"s" [c!"s"] [] [(c!"choice_filter", c!"a = ${last-saved#q}")] c!"select one external" c!"towns" false] = true := by
   decide +kernel
